@@ -116,6 +116,22 @@ PROFILES = {
         core_ops=("src", "mutate_w", "filter", "slice_head", "arrange", "summarize"),
         n_src=2,
     ),
+    "sql": dict(
+        property="C19",
+        oracles=["O19"],
+        weights=_w(mutate=7, mutate_w=6, filter=5, arrange=4, slice_head=4, group_by=4, ungroup=1, summarize=5, select=3, rename=3, join=5, union=2, alias=4, ref=0, collect=0, observe=3, uuid_regime=2),
+        mutate_kinds=dict(ref=1, tag=4, add=1, lit=1, case=2),
+        window_kinds=WIN,
+        summarize_kinds=dict(agg=5, arith_agg=1),
+        refarg_mix=dict(r=0, c=3, o=3, n=1),
+        p_alias_keep=0.2,
+        force_replicas=["polars", "sqlite"],
+        cq_replicas=["postgres", "mssql"],
+        observe_kinds=["build_query", "export", "repr"],
+        crash_subjects={},
+        core_ops=("src", "mutate", "mutate_w", "join", "summarize", "alias"),
+        n_src=3,
+    ),
     "none": dict(property=None, oracles=[], weights=_w(), mutate_kinds=EW, window_kinds=WIN, crash_subjects={}),
 }
 
@@ -149,5 +165,6 @@ def make_cfg(run_seed: int, profile_name: str, tier: str, *, population: str = "
         max_steps=max_steps,
         sessions=r.randint(*sess),
         p_share=r.uniform(*psh),
+        cq_replicas=list(p.get("cq_replicas", [])),
     )
     return cfg
